@@ -170,7 +170,7 @@ Proof.
   destruct (is_ex issue).
   - destruct (build_vote_list (c_fixed c) rmap) as [|[topc topa] l]; [discriminate|].
     destruct (threshold _ topa) as [th|]; [|discriminate].
-    destruct th; [destruct (parse_dec topc)|]; intros [= <- <-]; exact M'.
+    destruct th; [destruct (parse_dec topc); [|discriminate]|]; intros [= <- <-]; exact M'.
   - intros [= <- <-]. exact M'.
 Qed.
 
